@@ -8,6 +8,7 @@ import (
 	"fmt"
 	"math/big"
 	"os"
+	"runtime/debug"
 	"sort"
 	"strings"
 	"testing"
@@ -33,6 +34,9 @@ type brHarness struct {
 	r    *Rec
 	e    *skyEnv
 	nTok int
+	// number of recorded checkpoints at the last genesis export / import of the case (0 = none): the archive of issued
+	// checkpoints is not part of the bridge's genesis state, see known finding C13-archive-not-exported
+	reimportedAt int
 	// ghost bookkeeping for the monitors
 	accepted     map[int]obsTx
 	refunded     map[int]bool
@@ -407,6 +411,39 @@ func runBridgeCase(t *testing.T, r *Rec, prop string, nops int) {
 		}
 		if weightEv > 0 && r.Rng.Intn(100) < weightEv && len(b.ckpts) > 0 {
 			b.evidenceOp()
+			continue
+		}
+		if r.Rng.Intn(100) < 3 {
+			// the chain is exported and started again from the export (bridge module): ExportGenesis, wipe the module's
+			// store, InitGenesis.  Everything the bridge properties speak about - pool, batches, their checkpoints and
+			// confirmations' base, tax and limit settings, window usage, the oracle cursor - must come back as it was.
+			var perr string
+			func() {
+				defer func() {
+					if rec := recover(); rec != nil {
+						perr = fmt.Sprint(rec) + " | " + firstLines(string(debug.Stack()), 40)
+					}
+				}()
+				gs := skykeeper.ExportGenesis(e.ctx, e.raw)
+				st := e.raw.GetStore(e.ctx, "") // the whole module store (empty prefix)
+				it := st.Iterator(nil, nil)
+				var keys [][]byte
+				for ; it.Valid(); it.Next() {
+					keys = append(keys, append([]byte(nil), it.Key()...))
+				}
+				it.Close()
+				for _, k := range keys {
+					st.Delete(k)
+				}
+				skykeeper.InitGenesis(e.ctx, e.raw, gs)
+			}()
+			if perr != "" {
+				r.Hit("genesis_round_trip", "export / import of the bridge module panicked: "+perr, b.replay())
+			}
+			b.reimportedAt = len(b.ckpts) // every checkpoint recorded so far was issued BEFORE this export / import
+			b.emit("reimport", b.state())
+			r.Stat("op.reimport")
+			b.monitorNoSupply("reimport")
 			continue
 		}
 		switch {
@@ -858,7 +895,8 @@ func (b *brHarness) faultSweep(op string) {
 // (jails the signer), or signed by a key no validator registered (refused).
 func (b *brHarness) evidenceOp() {
 	r, e := b.r, b.e
-	ck := b.ckpts[r.Rng.Intn(len(b.ckpts))]
+	ckIdx := r.Rng.Intn(len(b.ckpts))
+	ck := b.ckpts[ckIdx]
 	ext := ck.ext
 	variant := 0
 	switch r.Rng.Intn(4) {
@@ -904,7 +942,11 @@ func (b *brHarness) evidenceOp() {
 	op := fmt.Sprintf("evidence %d %d %d %d %s", ck.tok, ck.nonce, ext.GasEstimate, variant, signerS)
 	jailedAfter := b.jailedList()
 	if variant == 0 && jailedAfter != jailedBefore {
-		r.Hit("genuine_confirmation_safe", fmt.Sprintf("a signature over the issued checkpoint of batch %d/%d (estimate %d) jailed validator(s) %s", ck.tok, ck.nonce, ck.est, jailedAfter), b.replay())
+		after := ""
+		if ckIdx < b.reimportedAt {
+			after = " after a genesis export / import of the bridge module"
+		}
+		r.Hit("genuine_confirmation_safe", fmt.Sprintf("a signature over the issued checkpoint of batch %d/%d (estimate %d) jailed validator(s) %s%s", ck.tok, ck.nonce, ck.est, jailedAfter, after), b.replay())
 	}
 	// "only if the signature is by that validator's registered key": whoever is newly jailed must be the validator
 	// the harness's own record of accepted registrations names as the current holder of the signing key
